@@ -18,7 +18,20 @@ var (
 	redisSt  kvs.Storage
 	miniErr  error
 	redisDB  int
+	// redisPager cuts the server's SCAN answers into several pages, empty ones included (see scanpager.go)
+	redisPager *scanPager
 )
+
+// ScanPagesCut tells how many listings of the process-wide client were answered in several pages so far.
+func ScanPagesCut() int64 {
+	Redis()
+	if redisPager == nil {
+		return 0
+	}
+	redisPager.mu.Lock()
+	defer redisPager.mu.Unlock()
+	return redisPager.Cut
+}
 
 // RedisDB tells which logical database of the process-wide server the process-wide client uses.
 func RedisDB() int { Redis(); return redisDB }
@@ -35,7 +48,8 @@ func Redis() (*miniredis.Miniredis, kvs.Storage, error) {
 		if shard, _ := vstat.Shard(); shard%2 == 1 {
 			redisDB = []int{3, 15, 1}[(shard/2)%3]
 		}
-		redisSt = kvredis.New(&goredis.Options{Addr: mini.Addr(), PoolSize: 64, DB: redisDB})
+		redisPager = newScanPager()
+		redisSt = kvredis.New(&goredis.Options{Addr: mini.Addr(), PoolSize: 64, DB: redisDB, Dialer: redisPager.dialer()})
 	})
 	return mini, redisSt, miniErr
 }
